@@ -90,11 +90,14 @@ DEVIATIONS = {
     'x.125': {'scale': .125},
     'dc5': {'offset': 5.0},
     'neg': {'negate': True},
+    'driftdn': {'drift': -2.5},            # oscillation riding on a falling flank steeper than its own slope (inverted flanks)
+    'driftup': {'drift': 2.5},
     'strided': {'layout': 'strided'},      # the signal is a non-contiguous view into a larger array
     'int': {'layout': 'int'},              # integer dtype (ADC counts)
+    'int16big': {'layout': 'int16big'},    # int16 at ~90 % of full scale (C09 only: arithmetic wraps identically on both sides)
 }
 # deviations that exclude each other (same option)
-GROUPS = [('nc2', 'nc3', 'nc4', 'ns.5', 'ns.375'), ('b0', 'b1', 'b5', 'b12'), ('thr1', 'nothr'), ('band5_12', 'band7_16', 'fs128'),
+GROUPS = [('driftdn', 'driftup', 'dc5', 'neg'), ('strided', 'int', 'int16big'), ('nc2', 'nc3', 'nc4', 'ns.5', 'ns.375'), ('b0', 'b1', 'b5', 'b12'), ('thr1', 'nothr'), ('band5_12', 'band7_16', 'fs128'),
           ('x1024', 'x2-10', 'x.125')]
 
 
@@ -107,7 +110,7 @@ def compatible(devs):
 
 def option_sets(max_dev, menu=None):
     """All option sets (tuples of deviation names, sorted) with at most max_dev deviations."""
-    menu = list(DEVIATIONS) if menu is None else list(menu)
+    menu = [d for d in DEVIATIONS if d != 'int16big'] if menu is None else list(menu)
     out = [()]
     for k in range(1, max_dev + 1):
         for c in itertools.combinations(menu, k):
@@ -120,7 +123,7 @@ def resolve(devs):
     """Turn a tuple of deviation names into concrete call parameters."""
     o = {'fs': 64, 'f_range': (6, 14), 'center_extrema': 'peak', 'burst_method': 'cycles',
          'filter_kwargs': None, 'boundary': None, 'return_samples': True, 'thr': 0,
-         'scale': 1.0, 'offset': 0.0, 'negate': False, 'layout': 'plain'}
+         'scale': 1.0, 'offset': 0.0, 'negate': False, 'layout': 'plain', 'drift': 0.0}
     for d in devs:
         o.update(copy.deepcopy(DEVIATIONS[d]))
     return o
@@ -149,6 +152,10 @@ def call_kwargs(o):
 
 def make_signal(word, o):
     x = word_signal(word, scale=o['scale'], offset=o['offset'], negate=o['negate'])
+    if o.get('drift'):
+        x = x + o['drift'] * np.arange(len(x))
+    if o.get('layout') == 'int16big':
+        return (x * 10000).astype(np.int16)      # ~90 % of full scale: peak-to-trough swings overflow int16
     if o.get('layout') == 'strided':
         big = np.empty((len(x), 3))
         big[:] = 99.
